@@ -90,3 +90,10 @@ Proof. reflexivity. Qed.
 Lemma skel_am_deleteAllocatorGroup_ok : skel_am_deleteAllocatorGroup =
   [Lock "am.mu"; DeferUnlock "am.mu"; IfE "exist" [Call "Reset"; Call "Reset"; Call "cancel"; Call "delete"] []].
 Proof. reflexivity. Qed.
+
+(* every step of the protocol compares (physical, logical) lexicographically on the values as they are; the model's ts order
+   (ts_max, tle) is that order - in particular no composed 64-bit value is compared: the logical part of a memory may exceed
+   18 bits between an overflowing request and the next tick *)
+Lemma src_CompareTimestamp_ok : src_CompareTimestamp =
+  "{ if tsoOne.GetPhysical() > tsoTwo.GetPhysical() || (tsoOne.GetPhysical() == tsoTwo.GetPhysical() && tsoOne.GetLogical() > tsoTwo.GetLogical()) { return 1 } if tsoOne.GetPhysical() == tsoTwo.GetPhysical() && tsoOne.GetLogical() == tsoTwo.GetLogical() { return 0 } return -1 }".
+Proof. reflexivity. Qed.
